@@ -33,7 +33,8 @@ def points(box):
 
 
 def loc_case(ctx, lon, lat, box, rmax, tag, boxkind) -> None:
-    kw = {"lon": gen.arr(lon), "lat": gen.arr(lat)}
+    kw = {"lon": gen.carried(ctx.rng, lon, poisons=(0.0, 5.0, 179.0, -100.0), p_list=0.0),
+          "lat": gen.carried(ctx.rng, lat, poisons=(0.0, 5.0, 80.0, -45.0), p_list=0.0)}
     if box is not None:
         kw["bbox"] = box
     if rmax is not None or ctx.rng.random() < 0.3:
@@ -113,6 +114,29 @@ def run(ctx) -> None:
             ctx.count("location.fail_over_suspect_cases")
         loc_case(ctx, lon, lat, box, rmax, tag, boxkind)
 
+    # history: the same coordinate values with and without some fixes masked, one call right after the other
+    for _ in range(ctx.pick(150, 1000)):
+        n = rng.choice([3, 4, 5, 8])
+        lonv = [10.0 + rng.choice([0.0, 0.001, 0.5, 3.0]) * k for k in range(n)]
+        latv = [50.0 + rng.choice([0.0, 0.0005, 0.25]) * k for k in range(n)]
+        msk = [rng.random() < 0.35 for _ in range(n)]
+        hs = hops(lonv, latv)
+        rmax = rng.choice([h * f for h in hs for f in (0.5, 0.999, 1.001)] or [1000.0])
+        raw = {"lon": np.array(lonv), "lat": np.array(latv), "range_max": rmax}
+        masked = {"lon": np.ma.MaskedArray(np.array(lonv), mask=msk), "lat": np.ma.MaskedArray(np.array(latv), mask=msk),
+                  "range_max": rmax}
+        lm = [None if m else v for v, m in zip(lonv, msk)]
+        tm = [None if m else v for v, m in zip(latv, msk)]
+        order = [("raw", raw, lonv, latv), ("masked", masked, lm, tm)]
+        if rng.random() < 0.5:
+            order.reverse()
+        for which, kw, lo_, la_ in order:
+            client.expect(ctx, "C14", "qartod.location_test", kw, lambda: models.location(lo_, la_, (-180, -90, 180, 90), rmax),
+                          logical={"lon": lo_, "lat": la_, "range_max": rmax, "carrier": which,
+                                   "note": "same coordinate values as the neighbouring call, different mask"}, hist="location")
+            ctx.count("location.calls")
+            ctx.count("location.same_values_different_mask_calls")
+            ctx.case(f"history|{which}|{'first' if kw is order[0][1] else 'second'}|n{gen.nclass(n)}")
     if ctx.shard == 0:
         bad = [({"lon": np.array([1.0, 2.0]), "lat": np.array([1.0])}, "shape"),
                ({"lon": np.array([1.0]), "lat": np.array([1.0, 2.0, 3.0])}, "shape"),
